@@ -918,7 +918,10 @@ func getEventTime(etHeader string) time.Time {
 			// the default didn't catch it, let's try a few other things
 			// is it all numeric? then try unix epoch times
 			epochInt, err := strconv.ParseInt(etHeader, 0, 64)
-			if err == nil {
+			if sec, nsec, ok := parseEpochDigits(etHeader); ok {
+				// all digits: parse exactly, without going through a float
+				eventTime = time.Unix(sec, nsec)
+			} else if err == nil {
 				// it might be seconds or it might be milliseconds! Who can know!
 				// 10-digit numbers are seconds, 13-digit milliseconds, 16 microseconds
 				if len(etHeader) == 10 {
@@ -943,6 +946,30 @@ func getEventTime(etHeader string) time.Time {
 		}
 	}
 	return eventTime.UTC()
+}
+
+// parseEpochDigits reads an all-digit Unix epoch time of 10 to 19 digits: the
+// first ten digits are seconds, any remaining digits are a decimal fraction of
+// a second (13 digits = milliseconds, 16 = microseconds, 19 = nanoseconds).
+// Integer arithmetic keeps every value exact, which float64 parsing does not.
+func parseEpochDigits(s string) (sec int64, nsec int64, ok bool) {
+	if len(s) < 10 || len(s) > 19 {
+		return 0, 0, false
+	}
+	for i := 0; i < len(s); i++ {
+		if s[i] < '0' || s[i] > '9' {
+			return 0, 0, false
+		}
+		if i < 10 {
+			sec = sec*10 + int64(s[i]-'0')
+		} else {
+			nsec = nsec*10 + int64(s[i]-'0')
+		}
+	}
+	for i := len(s); i < 19; i++ {
+		nsec *= 10
+	}
+	return sec, nsec, true
 }
 
 func makeDecoders(concurrency int) (*zstd.Decoder, error) {
